@@ -398,6 +398,12 @@ fn end_event(arena: &sync::Arena, kind: &str, extra: Value) -> Value {
   json!({"ev": kind, "obs": obs(arena), "live": live, "mem": rle(arena.memory()), "steps": st.step, "x": extra})
 }
 
+enum CrashAt {
+  None,
+  All,
+  Steps(Vec<u64>),
+}
+
 const SPIN_WINDOW: u64 = 400;
 const SPIN_MIN_EACH: u64 = 60;
 
@@ -502,6 +508,11 @@ fn run_driver(d: &Value, out: &mut impl Write, workdir: &str) -> bool {
     .map(|v| v.iter().map(|x| x.as_u64().unwrap() as usize).collect())
     .unwrap_or_default();
   let budget = d["budget"].as_u64().unwrap_or(20000);
+  let crash_at = match d.get("crash_at") {
+    Some(Value::String(s)) if s == "all" => CrashAt::All,
+    Some(Value::Array(v)) => CrashAt::Steps(v.iter().map(|x| x.as_u64().unwrap()).collect()),
+    _ => CrashAt::None,
+  };
   let mut rng_state: u64 = d["tail_seed"].as_u64().unwrap_or(0);
   let mut i = 0usize;
   let mut rr = 0usize;
@@ -569,6 +580,28 @@ fn run_driver(d: &Value, out: &mut impl Write, workdir: &str) -> bool {
           }
         }
       }
+    }
+    // crash points: the file as the page cache holds it at this instant (every thread is parked between two accesses)
+    let next_step = st.step + 1;
+    let snap = match &crash_at {
+      CrashAt::All => true,
+      CrashAt::Steps(v) => v.contains(&next_step),
+      CrashAt::None => false,
+    };
+    if snap && !own_clones {
+      let img = scratch_path(workdir, "snap");
+      std::fs::write(&img, arena.memory()).expect("write snapshot");
+      let live: Vec<Value> = st
+        .handles
+        .iter()
+        .map(|(id, h)| {
+          let m = h.0.meta();
+          json!({"h": id, "po": m[2], "ps": m[3], "bytes": handle_bytes(arena, m)})
+        })
+        .collect();
+      let pend: Vec<Value> = (0..nthreads).map(|t| json!({"t": t, "done": st.done[t], "op": st.cur_op[t], "pending": st.parked[t]})).collect();
+      writeln!(out, "{}", json!({"ev": "snapshot", "before_step": next_step, "img": img.to_string_lossy(), "live": live,
+                                 "threads": pend, "cfg": cfg})).unwrap();
     }
     st.step += 1;
     st.since_write += 1;
